@@ -87,7 +87,7 @@ try:
              "needs_to_manifest": meta.get("needs_to_manifest"), "files_changed": meta.get("files_changed"),
              "demo_location": loc, "demo_file": "demo_test.go.txt (copy to <demo_location>/zz_seed_demo_test.go)", "demo_cmd": demo_cmd,
              "confirmed": ok, "confirmed_by": "tools/verify_seed.py in a scratch worktree of /repo HEAD", "ran": ran,
-             "author_ran": meta.get("ran")}
+             "author_ran": meta.get("author_ran") or meta.get("ran")}
     json.dump(meta2, open(os.path.join(dst, "meta.json"), "w"), indent=1)
     print(name, "CONFIRMED" if ok else "NOT CONFIRMED")
     if not ok:
